@@ -1,7 +1,728 @@
-//! C03 harness: the scheduled-run harness of harness/c02 (publishers, environment, polling subscriber, crash points).
-#[path = "../../c02/src/main.rs"]
-mod harness;
+//! C03 harness (started as a copy of harness/c02/src/main.rs, which C02 keeps): several publication handles and a
+//! polling image over one in-memory log, run under the deterministic scheduler of `vcommon::sched` (hook H2).
+//!
+//! One case per line:
+//!   run bits=<b> mtu=<m> init=<i> n0=<n> off0=<o> limit=<l> T=<thread> T=<thread> ... S=<t,t,t,...> K=<k|-,...>
+//! threads (thread id = position in the line):
+//!   P:<budget>:<k>x<len>,<k>x<len>,...   publisher with its own `Publication` handle; offers message k (payload(k,len)),
+//!                                        retrying the same message while the result is an error, at most <budget> attempts in all
+//!   E:<op>,<op>,...                      environment (media driver side): L<v> set the publication limit to v (put_ordered),
+//!                                        C<p> zero partition p (set_memory)
+//!   R:<polls>:<fragment limit>           subscriber: an `Image` over the same log (hook H3 `Image::create_for_verif` when the
+//!                                        repository has it, else a copy of `Image::poll` around the real `term_reader::read`)
+//!                                        polled <polls> times; the handler reads the flags byte and the payload (one burst)
+//!   X:<budget>:<item>,...               exclusive publisher (`ExclusivePublication`, must be the only publisher of the case);
+//!                                        item = <k>x<len> (offer_part of payload(k,len)) or <k>c<len>[F<v>][T<v>][R<v>][a]
+//!                                        (try_claim of len bytes, payload(k,len) written into the claim, then the header setters of
+//!                                        BufferClaim: F = set_flags(v), T = set_header_type(v), R = set_reserved_value(v), then commit,
+//!                                        or abort when the item ends in `a`)
+//!   Q:<budget>:<k>x<len>[F<v>][T<v>][R<v>][a],...   shared publisher using Publication::try_claim, same item syntax after the length
+//!   V:<fragment limit>:<poll>,<poll>,... subscriber polling with the given flavour each time (needs hook H3):
+//!                                        p = poll, b<bound> = bounded_poll(limit_position = bound), c<script> = controlled_poll,
+//!                                        d<bound>/<script> = bounded_controlled_poll, k<bound>/<script> = controlled_peek(position(), .., bound)
+//!                                        followed by set_position(result) when the result is beyond the position, l<n> = block_poll(n).
+//!                                        script = the handler's answers, one letter per fragment handed over: C continue, A abort,
+//!                                        B break, M commit (continue once exhausted). The block handler reads the whole block (one burst)
+//!                                        and reports every data frame in it as a fragment.
+//! S = schedule (thread granted the i-th step), K = crash points (`-` none, k = stop for ever after k granted steps).
+//!
+//! Observation (Coq term syntax):
+//!   (trace, [(Status, [attempt results]); ...], (count, [tail0; tail1; tail2], [words0; words1; words2], limit, subscriber position),
+//!    [(tid, term offset of the frame, payload length, flags, [payload bytes]); ...]   fragments handed to the handlers, in order)
+//! trace entries: (tid, Kind, region, offset, len, val, val2, before); regions 0..2 terms, 3 log meta data, 4 counter values.
+//! `before` (the value the location held) is reported for reads and read-modify-writes only.
+use std::ffi::CString;
+use std::sync::{Arc, Mutex};
 
-fn main() {
-    harness::main()
+use aeron_rs::concurrent::atomic_buffer::{AlignedBuffer, AtomicBuffer};
+use aeron_rs::concurrent::logbuffer::header::Header;
+use aeron_rs::concurrent::logbuffer::log_buffer_descriptor as lbd;
+use aeron_rs::concurrent::logbuffer::term_reader;
+use aeron_rs::utils::types::Index;
+use aeron_rs::concurrent::position::{ReadablePosition, UnsafeBufferPosition};
+use aeron_rs::concurrent::logbuffer::buffer_claim::BufferClaim;
+use aeron_rs::exclusive_publication::ExclusivePublication;
+use aeron_rs::publication::Publication;
+use aeron_rs::utils::errors::AeronError;
+use aeron_rs::verif_hook::AccessKind;
+use vcommon::client::{TestClient, TestLog};
+use vcommon::sched::{self, Event, Region};
+
+const LIMIT_COUNTER_ID: i32 = 1;
+const SUBPOS_COUNTER_ID: i32 = 2;
+const SESSION_ID: i32 = 11;
+const STREAM_ID: i32 = 22;
+
+struct SendBox<T>(T);
+unsafe impl<T> Send for SendBox<T> {}
+
+#[derive(Clone, Debug)]
+enum EnvOp {
+    Limit(i64),
+    Clean(i32),
+}
+
+#[derive(Clone, Debug)]
+enum ThreadSpec {
+    Publisher { budget: usize, msgs: Vec<(i64, i32)> },
+    Env { ops: Vec<EnvOp> },
+    Reader { polls: usize, limit: i32 },
+    Exclusive { budget: usize, msgs: Vec<Item> },
+    Claimer { budget: usize, msgs: Vec<Item> },
+    Viewer { limit: i32, polls: Vec<PollSpec> },
+}
+
+/// one thing a publisher thread does: offer payload(k, len), or claim len bytes, fill them, use the header setters, commit / abort
+#[derive(Clone, Debug)]
+struct Item {
+    k: i64,
+    len: i32,
+    claim: bool,
+    flags: Option<u8>,
+    htype: Option<u16>,
+    resv: Option<i64>,
+    abort: bool,
+}
+
+#[derive(Clone, Debug)]
+enum PollSpec {
+    Poll,
+    Bounded(i64),
+    Controlled(Vec<u8>),
+    BoundedControlled(i64, Vec<u8>),
+    Peek(i64, Vec<u8>),
+    Block(i32),
+}
+
+fn parse_item(m: &str, always_claim: bool) -> Item {
+    // <k>(x|c)<len>[F<v>][T<v>][R<v>][a]
+    let abort = m.ends_with('a');
+    let m = m.trim_end_matches('a');
+    let sep = m.find(|ch| ch == 'x' || ch == 'c').unwrap_or_else(|| panic!("bad int item {}", m));
+    let k: i64 = m[..sep].parse().expect("bad int k");
+    let claim = always_claim || &m[sep..sep + 1] == "c";
+    let rest = &m[sep + 1..];
+    let mut fields: Vec<(char, String)> = vec![('L', String::new())];
+    for ch in rest.chars() {
+        if ch == 'F' || ch == 'T' || ch == 'R' {
+            fields.push((ch, String::new()));
+        } else {
+            fields.last_mut().unwrap().1.push(ch);
+        }
+    }
+    let mut it = Item { k, len: 0, claim, flags: None, htype: None, resv: None, abort };
+    for (f, v) in fields {
+        let n: i64 = v.parse().expect("bad int field");
+        match f {
+            'L' => it.len = n as i32,
+            'F' => it.flags = Some(n as u8),
+            'T' => it.htype = Some(n as u16),
+            _ => it.resv = Some(n),
+        }
+    }
+    it
+}
+
+fn parse_script(s: &str) -> Vec<u8> {
+    s.bytes().collect()
+}
+
+fn parse_poll(p: &str) -> PollSpec {
+    let (head, rest) = p.split_at(1);
+    let bound_script = |r: &str| -> (i64, Vec<u8>) {
+        let mut it = r.splitn(2, '/');
+        let b: i64 = it.next().unwrap().parse().expect("bad int bound");
+        (b, parse_script(it.next().unwrap_or("")))
+    };
+    match head {
+        "p" => PollSpec::Poll,
+        "b" => PollSpec::Bounded(rest.parse().expect("bad int bound")),
+        "c" => PollSpec::Controlled(parse_script(rest)),
+        "d" => {
+            let (b, sc) = bound_script(rest);
+            PollSpec::BoundedControlled(b, sc)
+        }
+        "k" => {
+            let (b, sc) = bound_script(rest);
+            PollSpec::Peek(b, sc)
+        }
+        "l" => PollSpec::Block(rest.parse().expect("bad int block limit")),
+        other => panic!("unknown case kind poll {}", other),
+    }
+}
+
+#[cfg(verif_h3)]
+fn action_of(code: u8) -> aeron_rs::image::ControlledPollAction {
+    use aeron_rs::image::ControlledPollAction;
+    match code {
+        b'A' => ControlledPollAction::Abort,
+        b'B' => ControlledPollAction::Break,
+        b'M' => ControlledPollAction::Commit,
+        _ => ControlledPollAction::Continue,
+    }
+}
+
+thread_local! {
+    /// fragments the block handler (a plain fn) found in the blocks it was given
+    static BLOCK_FRAGS: std::cell::RefCell<Vec<String>> = const { std::cell::RefCell::new(Vec::new()) };
+    static BLOCK_TID: std::cell::Cell<usize> = const { std::cell::Cell::new(0) };
+}
+
+/// The block handler reads the block in one burst and reports every data frame it contains; a frame whose length word is
+/// not positive inside a block is reported as it is (negative payload length) - the oracle rejects it.
+#[allow(dead_code)]
+fn block_handler(buf: &AtomicBuffer, offset: Index, length: Index, _session_id: i32, _term_id: i32) {
+    let tid = BLOCK_TID.with(|t| t.get());
+    let bytes: Vec<u8> = buf.as_sub_slice(offset, length).to_vec();
+    let mut pos: usize = 0;
+    while pos + 32 <= bytes.len() {
+        let fl = i32::from_le_bytes([bytes[pos], bytes[pos + 1], bytes[pos + 2], bytes[pos + 3]]);
+        let flags = bytes[pos + 5];
+        let ty = u16::from_le_bytes([bytes[pos + 6], bytes[pos + 7]]);
+        if fl < 32 {
+            BLOCK_FRAGS.with(|b| b.borrow_mut().push(format!("({}, {}, {}, {}, [])", tid, offset as usize + pos, fl - 32, flags)));
+            break;
+        }
+        let end = (pos + fl as usize).min(bytes.len());
+        if ty != 0 {
+            let body: Vec<String> = bytes[pos + 32..end].iter().map(|b| b.to_string()).collect();
+            BLOCK_FRAGS.with(|b| {
+                b.borrow_mut().push(format!("({}, {}, {}, {}, [{}])", tid, offset as usize + pos, fl - 32, flags, body.join("; ")))
+            });
+        }
+        pos += ((fl as usize) + 31) & !31;
+    }
+}
+
+/// The subscriber side. With hook H3 this is the repository's `Image`; without it, `Image::poll` copied verbatim
+/// (position counter, partition selection, `term_reader::read`, ordered position update).
+#[cfg(verif_h3)]
+struct Sub(aeron_rs::image::Image);
+#[cfg(verif_h3)]
+impl Sub {
+    fn new(log: &TestLog, pos: &UnsafeBufferPosition) -> Self {
+        Sub(aeron_rs::image::Image::create_for_verif(
+            SESSION_ID,
+            7,
+            8,
+            CString::new("verif").unwrap(),
+            pos,
+            log.log_buffers.clone(),
+            Box::new(|_e: AeronError| {}),
+        ))
+    }
+    fn poll(&mut self, h: &mut impl FnMut(&AtomicBuffer, Index, Index, &Header), limit: i32) -> i32 {
+        self.0.poll(h, limit)
+    }
+}
+#[cfg(not(verif_h3))]
+struct Sub {
+    term_buffers: Vec<AtomicBuffer>,
+    subscriber_position: UnsafeBufferPosition,
+    header: Header,
+    term_length_mask: Index,
+    position_bits_to_shift: i32,
+}
+#[cfg(not(verif_h3))]
+impl Sub {
+    fn new(log: &TestLog, pos: &UnsafeBufferPosition) -> Self {
+        let capacity = log.term(0).capacity();
+        Sub {
+            term_buffers: (0..3).map(|i| log.term(i)).collect(),
+            subscriber_position: pos.clone(),
+            header: Header::new(lbd::initial_term_id(&log.meta()), capacity),
+            term_length_mask: capacity - 1,
+            position_bits_to_shift: capacity.trailing_zeros() as i32,
+        }
+    }
+    fn poll(&mut self, h: &mut impl FnMut(&AtomicBuffer, Index, Index, &Header), limit: i32) -> i32 {
+        let position = self.subscriber_position.get();
+        let term_offset: Index = (position as Index) & self.term_length_mask;
+        let index = lbd::index_by_position(position, self.position_bits_to_shift);
+        assert!((0..lbd::PARTITION_COUNT).contains(&index));
+        let term_buffer = self.term_buffers[index as usize];
+        let read_outcome = term_reader::read(term_buffer, term_offset, h, limit, &mut self.header);
+        let new_position = position + (read_outcome.offset - term_offset) as i64;
+        if new_position > position {
+            self.subscriber_position.set_ordered(new_position);
+        }
+        read_outcome.fragments_read
+    }
+}
+
+struct Case {
+    bits: i32,
+    mtu: i32,
+    init: i32,
+    n0: i32,
+    off0: i32,
+    limit: i64,
+    threads: Vec<ThreadSpec>,
+    schedule: Vec<usize>,
+    stops: Vec<Option<usize>>,
+}
+
+fn parse_thread(s: &str) -> ThreadSpec {
+    let mut it = s.splitn(2, ':');
+    let kind = it.next().unwrap();
+    let rest = it.next().unwrap_or("");
+    match kind {
+        "P" => {
+            let mut it2 = rest.splitn(2, ':');
+            let budget: usize = it2.next().unwrap().parse().expect("bad int budget");
+            let msgs = it2
+                .next()
+                .unwrap_or("")
+                .split(',')
+                .filter(|x| !x.is_empty())
+                .map(|m| {
+                    let mut kv = m.split('x');
+                    let k: i64 = kv.next().unwrap().parse().expect("bad int k");
+                    let l: i32 = kv.next().unwrap().parse().expect("bad int len");
+                    (k, l)
+                })
+                .collect();
+            ThreadSpec::Publisher { budget, msgs }
+        }
+        "E" => {
+            let ops = rest
+                .split(',')
+                .filter(|x| !x.is_empty())
+                .map(|o| {
+                    let v: i64 = o[1..].parse().expect("bad int env operand");
+                    match &o[..1] {
+                        "L" => EnvOp::Limit(v),
+                        "C" => EnvOp::Clean(v as i32),
+                        other => panic!("unknown case kind env op {}", other),
+                    }
+                })
+                .collect();
+            ThreadSpec::Env { ops }
+        }
+        "X" | "Q" => {
+            let mut it2 = rest.splitn(2, ':');
+            let budget: usize = it2.next().unwrap().parse().expect("bad int budget");
+            let msgs = it2.next().unwrap_or("").split(',').filter(|x| !x.is_empty()).map(|m| parse_item(m, kind == "Q")).collect();
+            if kind == "X" {
+                ThreadSpec::Exclusive { budget, msgs }
+            } else {
+                ThreadSpec::Claimer { budget, msgs }
+            }
+        }
+        "V" => {
+            let mut it2 = rest.splitn(2, ':');
+            let limit: i32 = it2.next().unwrap().parse().expect("bad int limit");
+            let polls = it2.next().unwrap_or("").split(',').filter(|x| !x.is_empty()).map(parse_poll).collect();
+            ThreadSpec::Viewer { limit, polls }
+        }
+        "R" => {
+            let mut it2 = rest.splitn(2, ':');
+            let polls: usize = it2.next().unwrap().parse().expect("bad int polls");
+            let limit: i32 = it2.next().unwrap_or("10").parse().expect("bad int limit");
+            ThreadSpec::Reader { polls, limit }
+        }
+        other => panic!("unknown case kind thread {}", other),
+    }
+}
+
+fn parse_case(line: &str) -> Case {
+    let mut c = Case { bits: 10, mtu: 256, init: 0, n0: 0, off0: 0, limit: 0, threads: vec![], schedule: vec![], stops: vec![] };
+    let mut parts = line.split_whitespace();
+    let head = parts.next().unwrap_or("");
+    if head != "run" {
+        panic!("unknown case kind {}", head);
+    }
+    for p in parts {
+        let (k, v) = p.split_once('=').unwrap_or_else(|| panic!("bad int token {}", p));
+        match k {
+            "bits" => c.bits = v.parse().expect("bad int"),
+            "mtu" => c.mtu = v.parse().expect("bad int"),
+            "init" => c.init = v.parse().expect("bad int"),
+            "n0" => c.n0 = v.parse().expect("bad int"),
+            "off0" => c.off0 = v.parse().expect("bad int"),
+            "limit" => c.limit = v.parse().expect("bad int"),
+            "T" => c.threads.push(parse_thread(v)),
+            "S" => c.schedule = v.split(',').filter(|x| !x.is_empty()).map(|x| x.parse().expect("bad int")).collect(),
+            "K" => c.stops = v.split(',').filter(|x| !x.is_empty()).map(|x| if x == "-" { None } else { Some(x.parse().expect("bad int")) }).collect(),
+            other => panic!("unknown case kind key {}", other),
+        }
+    }
+    while c.stops.len() < c.threads.len() {
+        c.stops.push(None);
+    }
+    c
+}
+
+fn err_obs(e: &AeronError) -> String {
+    format!("Err {}", vcommon::err_name(e))
+}
+
+fn sx(v: i64, len: usize) -> i64 {
+    match len {
+        1 => v as u8 as i64,
+        2 => v as u16 as i64,
+        4 => v as i32 as i64,
+        _ => v,
+    }
+}
+
+fn fmt_event(e: &Event, tl: i64) -> String {
+    // a zero-length access at the very end of a partition is reported with the address of the next region
+    let (region, offset) = if e.len == 0 && e.offset == 0 && e.region >= 1 && e.region <= 3 {
+        (e.region - 1, tl)
+    } else {
+        (e.region, e.offset)
+    };
+    let reads = matches!(
+        e.kind,
+        AccessKind::Get
+            | AccessKind::GetVolatile
+            | AccessKind::GetAndAddI64
+            | AccessKind::CompareAndSetI32
+            | AccessKind::CompareAndSetI64
+            | AccessKind::ExclRawTail
+            | AccessKind::AddI64Ordered
+    );
+    let (val, val2) = match e.kind {
+        AccessKind::CopyFrom | AccessKind::PutBytes | AccessKind::RegionWrite | AccessKind::RegionRead | AccessKind::GetBytes => (0, 0),
+        AccessKind::Put | AccessKind::PutOrdered => (sx(e.val, e.len), 0),
+        _ => (e.val, e.val2),
+    };
+    format!(
+        "({}, {:?}, {}, {}, {}, {}, {}, {})",
+        e.tid,
+        e.kind,
+        if region == usize::MAX { -1 } else { region as i64 },
+        offset,
+        e.len,
+        val,
+        val2,
+        if reads { e.before } else { 0 }
+    )
+}
+
+/// What the claimant does with a successful claim: payload, the header setters the API offers, commit or abort.
+fn fill_claim(claim: &mut BufferClaim, it: &Item, bytes: &[u8]) {
+    claim.buffer().put_bytes(claim.offset(), bytes);
+    if let Some(v) = it.flags {
+        claim.set_flags(v);
+    }
+    if let Some(v) = it.htype {
+        claim.set_header_type(v);
+    }
+    if let Some(v) = it.resv {
+        claim.set_reserved_value(v);
+    }
+    if it.abort {
+        claim.abort();
+    } else {
+        claim.commit();
+    }
+}
+
+fn run_case(line: &str) -> String {
+    let c = parse_case(line);
+    let tl: i32 = 1 << c.bits;
+    let client = TestClient::new();
+    let log = TestLog::new(tl, c.mtu, c.init, c.n0, c.off0, SESSION_ID, STREAM_ID);
+    let counters = client.counter_values_buffer();
+    let limit = UnsafeBufferPosition::new(counters, LIMIT_COUNTER_ID);
+    limit.set(c.limit);
+    let subpos = UnsafeBufferPosition::new(counters, SUBPOS_COUNTER_ID);
+    subpos.set(c.n0 as i64 * tl as i64 + c.off0 as i64);
+    let frags: Arc<Mutex<Vec<String>>> = Arc::new(Mutex::new(Vec::new()));
+
+    let term_base = log.mem.ptr() as usize;
+    let regions = vec![
+        Region { base: term_base, len: tl as usize },
+        Region { base: term_base + tl as usize, len: tl as usize },
+        Region { base: term_base + 2 * tl as usize, len: tl as usize },
+        Region { base: term_base + 3 * tl as usize, len: lbd::LOG_META_DATA_LENGTH as usize },
+        Region { base: client.counter_values.ptr() as usize, len: client.counter_values.len() as usize },
+    ];
+
+    let n = c.threads.len();
+    let results: Vec<Arc<Mutex<Vec<String>>>> = (0..n).map(|_| Arc::new(Mutex::new(Vec::new()))).collect();
+    let mut bodies: Vec<Box<dyn FnOnce() -> String + Send>> = Vec::new();
+    for (t, spec) in c.threads.iter().enumerate() {
+        let res = results[t].clone();
+        match spec.clone() {
+            ThreadSpec::Publisher { budget, msgs } => {
+                // each thread has its own publication handle over the same log memory
+                let publication = SendBox(Publication::new(
+                    client.conductor.clone(),
+                    CString::new("aeron:ipc").unwrap(),
+                    100 + t as i64,
+                    100,
+                    STREAM_ID,
+                    SESSION_ID,
+                    UnsafeBufferPosition::new(counters, LIMIT_COUNTER_ID),
+                    -1,
+                    log.log_buffers.clone(),
+                ));
+                bodies.push(Box::new(move || {
+                    let publication = publication;
+                    let mut budget = budget;
+                    for (k, len) in msgs {
+                        let bytes = vcommon::payload(k, len.max(0) as usize);
+                        let src_mem = AlignedBuffer::with_capacity(len.max(8));
+                        let src = AtomicBuffer::from_aligned(&src_mem);
+                        src.put_bytes(0, &bytes);
+                        loop {
+                            if budget == 0 {
+                                return "Done".to_string();
+                            }
+                            budget -= 1;
+                            let r = publication.0.offer_part(src, 0, len);
+                            let ok = r.is_ok();
+                            res.lock().unwrap().push(match &r {
+                                Ok(p) => format!("Ok ({})", p),
+                                Err(e) => err_obs(e),
+                            });
+                            if ok {
+                                break;
+                            }
+                        }
+                    }
+                    "Done".to_string()
+                }));
+            }
+            ThreadSpec::Exclusive { budget, msgs } => {
+                let publication = SendBox(ExclusivePublication::new(
+                    client.conductor.clone(),
+                    CString::new("aeron:ipc").unwrap(),
+                    100 + t as i64,
+                    STREAM_ID,
+                    SESSION_ID,
+                    UnsafeBufferPosition::new(counters, LIMIT_COUNTER_ID),
+                    -1,
+                    log.log_buffers.clone(),
+                ));
+                bodies.push(Box::new(move || {
+                    let mut publication = publication;
+                    let mut budget = budget;
+                    for it in msgs {
+                        let bytes = vcommon::payload(it.k, it.len.max(0) as usize);
+                        let src_mem = AlignedBuffer::with_capacity(it.len.max(8));
+                        let src = AtomicBuffer::from_aligned(&src_mem);
+                        src.put_bytes(0, &bytes);
+                        loop {
+                            if budget == 0 {
+                                return "Done".to_string();
+                            }
+                            budget -= 1;
+                            let r = if it.claim {
+                                let mut claim = BufferClaim::default();
+                                let r = publication.0.try_claim(it.len, &mut claim);
+                                if r.is_ok() {
+                                    fill_claim(&mut claim, &it, &bytes);
+                                }
+                                r
+                            } else {
+                                publication.0.offer_part(src, 0, it.len)
+                            };
+                            let ok = r.is_ok();
+                            res.lock().unwrap().push(match &r {
+                                Ok(p) => format!("Ok ({})", p),
+                                Err(e) => err_obs(e),
+                            });
+                            if ok {
+                                break;
+                            }
+                        }
+                    }
+                    "Done".to_string()
+                }));
+            }
+            ThreadSpec::Claimer { budget, msgs } => {
+                let publication = SendBox(Publication::new(
+                    client.conductor.clone(),
+                    CString::new("aeron:ipc").unwrap(),
+                    100 + t as i64,
+                    100,
+                    STREAM_ID,
+                    SESSION_ID,
+                    UnsafeBufferPosition::new(counters, LIMIT_COUNTER_ID),
+                    -1,
+                    log.log_buffers.clone(),
+                ));
+                bodies.push(Box::new(move || {
+                    let mut publication = publication;
+                    let mut budget = budget;
+                    for it in msgs {
+                        let bytes = vcommon::payload(it.k, it.len.max(0) as usize);
+                        loop {
+                            if budget == 0 {
+                                return "Done".to_string();
+                            }
+                            budget -= 1;
+                            let mut claim = BufferClaim::default();
+                            let r = publication.0.try_claim(it.len, &mut claim);
+                            let ok = r.is_ok();
+                            if ok {
+                                fill_claim(&mut claim, &it, &bytes);
+                            }
+                            res.lock().unwrap().push(match &r {
+                                Ok(p) => format!("Ok ({})", p),
+                                Err(e) => err_obs(e),
+                            });
+                            if ok {
+                                break;
+                            }
+                        }
+                    }
+                    "Done".to_string()
+                }));
+            }
+            ThreadSpec::Viewer { limit, polls } => {
+                #[cfg(not(verif_h3))]
+                {
+                    let _ = (limit, polls, &res);
+                    panic!("unknown case kind V: the poll flavours need hook H3 (Image::create_for_verif)");
+                }
+                #[cfg(verif_h3)]
+                {
+                    let sub = SendBox(Sub::new(&log, &subpos));
+                    let frags = frags.clone();
+                    bodies.push(Box::new(move || {
+                        let mut sub = sub;
+                        BLOCK_TID.with(|b| b.set(t));
+                        for spec in polls {
+                            let calls = std::cell::Cell::new(0usize);
+                            let record = |buf: &AtomicBuffer, off: Index, len: Index, hdr: &Header| {
+                                let flags = hdr.flags();
+                                let bytes: Vec<String> =
+                                    if len >= 0 { buf.as_sub_slice(off, len).iter().map(|b| b.to_string()).collect() } else { Vec::new() };
+                                frags.lock().unwrap().push(format!("({}, {}, {}, {}, [{}])", t, hdr.term_offset(), len, flags, bytes.join("; ")));
+                            };
+                            let answer = |script: &Vec<u8>| {
+                                let i = calls.get();
+                                calls.set(i + 1);
+                                Ok(action_of(script.get(i).copied().unwrap_or(b'C')))
+                            };
+                            let out: String = match &spec {
+                                PollSpec::Poll => {
+                                    let mut h = |buf: &AtomicBuffer, off: Index, len: Index, hdr: &Header| record(buf, off, len, hdr);
+                                    format!("Ok ({})", sub.0 .0.poll(&mut h, limit))
+                                }
+                                PollSpec::Bounded(bound) => {
+                                    let h = |buf: &AtomicBuffer, off: Index, len: Index, hdr: &Header| record(buf, off, len, hdr);
+                                    format!("Ok ({})", sub.0 .0.bounded_poll(h, *bound, limit))
+                                }
+                                PollSpec::Controlled(script) => {
+                                    let h = |buf: &AtomicBuffer, off: Index, len: Index, hdr: &Header| {
+                                        record(buf, off, len, hdr);
+                                        answer(script)
+                                    };
+                                    format!("Ok ({})", sub.0 .0.controlled_poll(h, limit))
+                                }
+                                PollSpec::BoundedControlled(bound, script) => {
+                                    let h = |buf: &AtomicBuffer, off: Index, len: Index, hdr: &Header| {
+                                        record(buf, off, len, hdr);
+                                        answer(script)
+                                    };
+                                    format!("Ok ({})", sub.0 .0.bounded_controlled_poll(h, *bound, limit))
+                                }
+                                PollSpec::Peek(bound, script) => {
+                                    let h = |buf: &AtomicBuffer, off: Index, len: Index, hdr: &Header| {
+                                        record(buf, off, len, hdr);
+                                        answer(script)
+                                    };
+                                    let p0 = sub.0 .0.position();
+                                    match sub.0 .0.controlled_peek(p0, h, *bound) {
+                                        Ok(p) => {
+                                            if p > p0 {
+                                                let _ = sub.0 .0.set_position(p);
+                                            }
+                                            format!("Ok ({})", p)
+                                        }
+                                        Err(e) => err_obs(&e),
+                                    }
+                                }
+                                PollSpec::Block(n) => {
+                                    let r = sub.0 .0.block_poll(block_handler, *n);
+                                    let mut got = BLOCK_FRAGS.with(|b| std::mem::take(&mut *b.borrow_mut()));
+                                    frags.lock().unwrap().append(&mut got);
+                                    format!("Ok ({})", r)
+                                }
+                            };
+                            res.lock().unwrap().push(out);
+                        }
+                        "Done".to_string()
+                    }));
+                }
+            }
+            ThreadSpec::Reader { polls, limit } => {
+                let sub = SendBox(Sub::new(&log, &subpos));
+                let frags = frags.clone();
+                bodies.push(Box::new(move || {
+                    let mut sub = sub;
+                    for _ in 0..polls {
+                        let mut handler = |buf: &AtomicBuffer, off: Index, len: Index, hdr: &Header| {
+                            let flags = hdr.flags();
+                            let bytes: Vec<String> = buf.as_sub_slice(off, len).iter().map(|b| b.to_string()).collect();
+                            frags.lock().unwrap().push(format!("({}, {}, {}, {}, [{}])", t, hdr.term_offset(), len, flags, bytes.join("; ")));
+                        };
+                        let n = sub.0.poll(&mut handler, limit);
+                        res.lock().unwrap().push(format!("Ok ({})", n));
+                    }
+                    "Done".to_string()
+                }));
+            }
+            ThreadSpec::Env { ops } => {
+                let lim = SendBox(UnsafeBufferPosition::new(counters, LIMIT_COUNTER_ID));
+                let terms = SendBox([log.term(0), log.term(1), log.term(2)]);
+                bodies.push(Box::new(move || {
+                    let lim = lim;
+                    let terms = terms;
+                    for op in ops {
+                        match op {
+                            EnvOp::Limit(v) => lim.0.set_ordered(v),
+                            EnvOp::Clean(p) => {
+                                let b = terms.0[p as usize];
+                                b.set_memory(0, b.capacity(), 0)
+                            }
+                        }
+                    }
+                    "Done".to_string()
+                }));
+            }
+        }
+    }
+
+    let rr = sched::run(regions, bodies, &c.schedule, &c.stops);
+    let trace: Vec<String> = rr.trace.iter().map(|e| fmt_event(e, tl as i64)).collect();
+    let mut threads_obs = Vec::new();
+    for t in 0..n {
+        let status = if rr.panicked[t] {
+            "Panicked"
+        } else if rr.results[t].is_some() {
+            "Done"
+        } else {
+            "Stopped"
+        };
+        let mut rs = results[t].lock().unwrap_or_else(|e| e.into_inner());
+        if rr.panicked[t] {
+            rs.push("Panic".to_string()); // the attempt that was running when the thread's own code panicked
+        }
+        threads_obs.push(format!("({}, [{}])", status, rs.join("; ")));
+    }
+    let dump = format!(
+        "({}, [{}; {}; {}], [{}; {}; {}], {}, {})",
+        log.active_term_count(),
+        log.raw_tail(0),
+        log.raw_tail(1),
+        log.raw_tail(2),
+        vcommon::sparse_words(&log.term(0)),
+        vcommon::sparse_words(&log.term(1)),
+        vcommon::sparse_words(&log.term(2)),
+        limit.get(),
+        subpos.get()
+    );
+    let fr = frags.lock().unwrap_or_else(|e| e.into_inner());
+    format!("([{}], [{}], {}, [{}])", trace.join("; "), threads_obs.join("; "), dump, fr.join("; "))
+}
+
+pub fn main() {
+    vcommon::run_lines(run_case);
 }
